@@ -1,8 +1,193 @@
-import PeptVerif.Model.Isotope
-namespace C14
-open Isotope
+import PeptVerif.Lemmas.Isotope
+/-!
+# C14 — isotopic distributions are normalised, centred on the right masses and complete
 
-/-- placeholder while the model is being tied to the code -/
-theorem addKey_nil (k : Rat) (v : Rat) : addKey ([] : Dist Rat) k v = [(k, v)] := rfl
+Property theorems about the model `PeptVerif/Model/Isotope.lean` of `peptacular/isotope.py`.
+Every statement is for all compositions and (unless a hypothesis says otherwise) all option values.
+"Un-pruned" = `floor = none`, `max_isotopes = None`, `conv_min_abundance_threshold = None`,
+`min_abundance_threshold = None`; "un-rounded" = `distribution_resolution = None`.
+-/
+namespace C14
+open Isotope PeptVerif.Gen.C14
+
+/-- **sorted by mass**: the returned pattern is strictly increasing in mass (no two peaks share a mass), for every
+composition and every option value, when no final `precision` rounding is requested and the neutron mass is positive. -/
+theorem sorted_by_mass (f : Formula) (o : Opts) (out : Dist Rat)
+    (h : isotopicDistribution f o = .ok out) (hp : o.precision = none) (hn : 0 < o.neutronMass) :
+    out.Pairwise (fun a b => a.1 < b.1) := by
+  obtain ⟨L, p, d, m, _, hfin⟩ := run_ok f o out h
+  obtain ⟨mx, _, _, hsc⟩ := finish_ok o _ p d m out hfin
+  rw [hp] at hsc
+  have hkeys := scaleAbundances_keys _ out _ _ hsc
+  have hnd : NodupKeys (convolveList (roundOpt o.resolution) (some (o.convMinAbundanceThreshold.getD 0))
+      o.maxIsotopes o.floor L [((0 : Rat), 1)]) :=
+    nodupKeys_convolveList _ _ _ _ L _ (by simp [NodupKeys])
+  have hs := sortByKey_strict _ hnd
+  have h1 : (normalized o (convolveList (roundOpt o.resolution) (some (o.convMinAbundanceThreshold.getD 0))
+      o.maxIsotopes o.floor L [((0 : Rat), 1)]) mx).Pairwise (fun a b => a.1 < b.1) := by
+    unfold normalized
+    rw [List.pairwise_map]
+    exact List.Pairwise.sublist List.filter_sublist hs
+  have h2 : (out.map (·.1)).Pairwise (· < ·) := by
+    rw [hkeys, List.map_map, List.pairwise_map]
+    exact h1.imp (fun hab => shiftFn_strictMono o p d m hn _ _ hab)
+  exact List.pairwise_map.1 h2
+
+/-- **scale_sum**: with `is_abundance_sum=True` the abundances of a non-empty pattern sum to `distribution_abundance`
+(every composition, every pruning / rounding option). -/
+theorem scale_sum (f : Formula) (o : Opts) (out : Dist Rat)
+    (h : isotopicDistribution f o = .ok out) (hs : o.isAbundanceSum = true) (hp : o.precision = none)
+    (hne : out ≠ []) : sumAb out = o.distributionAbundance := by
+  obtain ⟨L, p, d, m, _, hfin⟩ := run_ok f o out h
+  obtain ⟨mx, _, _, hsc⟩ := finish_ok o _ p d m out hfin
+  rw [hp, hs] at hsc
+  exact scaleAbundances_sum _ out _ hsc hne
+
+/-- **scale_max**: with `is_abundance_sum=False` the largest peak equals `distribution_abundance` exactly and no peak
+exceeds it — for every composition and every pruning / rounding option, provided the reporting threshold does not
+exceed 1 and the requested abundance is not negative. -/
+theorem scale_max (f : Formula) (o : Opts) (out : Dist Rat)
+    (h : isotopicDistribution f o = .ok out) (hs : o.isAbundanceSum = false) (hp : o.precision = none)
+    (hthr : o.minAbundanceThreshold.getD 0 ≤ 1) (hA : 0 ≤ o.distributionAbundance) :
+    (∃ q ∈ out, q.2 = o.distributionAbundance) ∧ ∀ q ∈ out, q.2 ≤ o.distributionAbundance := by
+  obtain ⟨L, p, d, m, hL, hfin⟩ := run_ok f o out h
+  obtain ⟨mx, hmx, hmx0, hsc⟩ := finish_ok o _ p d m out hfin
+  rw [hp, hs] at hsc
+  have hout := scaleAbundances_max _ out _ hsc
+  have hpos : AllPos (convolveList (roundOpt o.resolution) (some (o.convMinAbundanceThreshold.getD 0))
+      o.maxIsotopes o.floor L [((0 : Rat), 1)]) :=
+    allPos_convolveList _ _ _ _ L _ (listPos_of_resolve o _ L hL) allPos_start
+  obtain ⟨⟨q, hq, hqm⟩, hall⟩ := maxAb_spec _ mx hmx
+  have hmxpos : 0 < mx := hqm ▸ hpos q hq
+  subst hout
+  constructor
+  · refine ⟨(shiftFn o p d m q.1, q.2 / mx * o.distributionAbundance), ?_, ?_⟩
+    · simp only [List.mem_map, normalized, List.mem_filter, decide_eq_true_eq, Prod.exists, Prod.mk.injEq]
+      refine ⟨shiftFn o p d m q.1, q.2 / mx, ⟨q.1, q.2 / mx, ⟨q.1, q.2, ⟨(sortByKey_perm _).mem_iff.2 hq, ?_⟩, rfl, rfl⟩, rfl, rfl⟩, rfl, rfl⟩
+      rw [hqm, div_self hmx0]; exact hthr
+    · show q.2 / mx * o.distributionAbundance = o.distributionAbundance
+      rw [hqm, div_self hmx0, one_mul]
+  · intro r hr
+    simp only [List.mem_map, normalized, List.mem_filter, decide_eq_true_eq, Prod.exists, Prod.mk.injEq] at hr
+    obtain ⟨k1, a1, ⟨k2, a2, ⟨k3, a3, ⟨hmem, _⟩, _, ha2⟩, _, ha1⟩, rfl⟩ := hr
+    have hle : a3 ≤ mx := hall (k3, a3) ((sortByKey_perm _).mem_iff.1 hmem)
+    show a1 * o.distributionAbundance ≤ o.distributionAbundance
+    have : a1 ≤ 1 := by rw [← ha1, ← ha2, div_le_iff₀ hmxpos]; linarith
+    nlinarith
+
+/-- **total_abundance**: un-pruned, the un-normalised total abundance after the element loop is the product over the
+elements of `(Σ_iso abundance)^count` — whatever the rounding resolution. -/
+theorem total_abundance (f : Formula) (o : Opts) (t : Dist Rat) (p d m : Rat)
+    (hraw : rawDistribution f o = .ok (t, p, d, m))
+    (hfl : o.floor = none) (hmi : o.maxIsotopes = none) (hct : o.convMinAbundanceThreshold = none) :
+    ∃ L, resolve o (cleanFormula f) = some L ∧ total t = totalProd L := by
+  obtain ⟨L, hL, ht, _⟩ := rawDistribution_ok f o t p d m hraw
+  refine ⟨L, hL, ?_⟩
+  rw [ht, hfl, hmi, hct]
+  have := total_convolveList (roundOpt o.resolution) L [((0 : Rat), 1)] (listPos_of_resolve o _ L hL) allPos_start
+  simpa [total] using this
+
+/-- **weighted_mean (element loop)**: un-pruned and un-rounded, if every element's isotope abundances sum to 1 then the
+total abundance is 1 and the first moment `Σ mass·abundance` is `Σ count · Σ_iso mass·abundance`, i.e. the average
+mass of the (rounded) composition. -/
+theorem weighted_mean_raw (f : Formula) (o : Opts) (t : Dist Rat) (p d m : Rat)
+    (hraw : rawDistribution f o = .ok (t, p, d, m))
+    (hfl : o.floor = none) (hmi : o.maxIsotopes = none) (hct : o.convMinAbundanceThreshold = none)
+    (hres : o.resolution = none) :
+    ∃ L, resolve o (cleanFormula f) = some L ∧
+      ((∀ x ∈ L, total x.1 = 1) → total t = 1 ∧ moment t = momentSum L) := by
+  obtain ⟨L, hL, ht, _⟩ := rawDistribution_ok f o t p d m hraw
+  refine ⟨L, hL, fun h1 => ?_⟩
+  have hpos := listPos_of_resolve o _ L hL
+  rw [ht, hfl, hmi, hct, hres]
+  have hT := total_convolveList (roundOpt none) L [((0 : Rat), 1)] hpos allPos_start
+  have hM := moment_convolveList L [((0 : Rat), 1)] hpos allPos_start h1
+  have hprod : totalProd L = 1 := by
+    clear hT hM hL ht hpos
+    induction L with
+    | nil => rfl
+    | cons x r ih =>
+      obtain ⟨isos, n⟩ := x
+      simp only [totalProd, h1 (isos, n) (List.mem_cons_self ..), one_pow, one_mul]
+      exact ih (fun y hy => h1 y (List.mem_cons_of_mem _ hy))
+  constructor
+  · have : (fun x => x) = roundOpt none := rfl
+    simpa [total, hprod, roundOpt] using hT
+  · have e : roundOpt none = id := rfl
+    simp only [Option.getD_none] at hM ⊢
+    rw [e]
+    simpa [total, moment] using hM
+
+/-- the scaling step multiplies every integral by one constant -/
+theorem scale_const (d out : Dist Rat) (a : Rat) (s : Bool) (h : scaleAbundances d a s none = .ok out) :
+    ∃ c : Rat, ∀ g : Rat → Rat, integral out g = c * integral d g := by
+  cases s with
+  | false =>
+    have := scaleAbundances_max d out a h
+    subst this
+    exact ⟨a, fun g => integral_scale d a g⟩
+  | true =>
+    unfold scaleAbundances at h
+    simp only [if_true] at h
+    by_cases ht : sumAb d = 0
+    · simp only [ht, if_true] at h
+      cases d with
+      | nil => simp [Except.map] at h; subst h; exact ⟨0, fun g => by simp⟩
+      | cons q r => simp [Except.map] at h
+    · simp only [ht, if_false, Except.map, Except.ok.injEq] at h
+      subst h
+      refine ⟨a / sumAb d, fun g => ?_⟩
+      rw [integral_scale, integral_div]; ring
+
+/-- **weighted mean = average mass** (mass view): un-pruned, un-rounded, for elements whose isotope abundances sum to 1,
+`Σ mass·abundance = (Σ abundance) · (Σ count·Σ_iso mass·abundance + delta_mass + particle_mass_offset)` for the
+returned pattern, whatever `distribution_abundance` / `is_abundance_sum`.  For integer compositions `delta_mass = 0`
+and the bracket is the average mass of the composition including its e/p/n entries. -/
+theorem weighted_mean_eq_average (f : Formula) (o : Opts) (t : Dist Rat) (p d m : Rat) (out : Dist Rat)
+    (hraw : rawDistribution f o = .ok (t, p, d, m)) (hfin : finishDistribution o t p d m = .ok out)
+    (hfl : o.floor = none) (hmi : o.maxIsotopes = none) (hct : o.convMinAbundanceThreshold = none)
+    (hmt : o.minAbundanceThreshold = none) (hres : o.resolution = none) (hneu : o.useNeutronCount = false)
+    (hp : o.precision = none) :
+    ∃ L, resolve o (cleanFormula f) = some L ∧
+      ((∀ x ∈ L, total x.1 = 1) → moment out = sumAb out * (momentSum L + d + p)) := by
+  obtain ⟨L, hL, h1⟩ := weighted_mean_raw f o t p d m hraw hfl hmi hct hres
+  refine ⟨L, hL, fun hone => ?_⟩
+  obtain ⟨hT, hM⟩ := h1 hone
+  obtain ⟨L', hL', ht, _⟩ := rawDistribution_ok f o t p d m hraw
+  have hpos : AllPos t := ht ▸ allPos_convolveList _ _ _ _ L' _ (listPos_of_resolve o _ L' hL') allPos_start
+  obtain ⟨mx, hmx, hmx0, hsc⟩ := finish_ok o t p d m out hfin
+  rw [hp] at hsc
+  obtain ⟨c, hc⟩ := scale_const _ out _ _ hsc
+  obtain ⟨⟨q, hq, hqm⟩, _⟩ := maxAb_spec _ mx hmx
+  have hmxpos : 0 < mx := hqm ▸ hpos q hq
+  have hshift : ∀ x, shiftFn o p d m x = x + d + p := by
+    intro x
+    unfold shiftFn
+    by_cases h1 : d = 0 <;> by_cases h2 : p = 0 <;> simp [hneu, h1, h2]
+  have hnorm : normalized o t mx = (sortByKey t).map (fun q => (q.1, q.2 / mx)) := by
+    unfold normalized
+    rw [List.filter_eq_self.2]
+    intro a ha
+    simp only [hmt, Option.getD_none, decide_eq_true_eq]
+    exact le_of_lt (div_pos (hpos a ((sortByKey_perm t).mem_iff.1 ha)) hmxpos)
+  have hW : ∀ g : Rat → Rat, integral ((normalized o t mx).map (fun q => (shiftFn o p d m q.1, q.2))) g =
+      integral t (fun k => g (k + d + p)) / mx := by
+    intro g
+    rw [integral_map_key, hnorm, integral_div, integral_perm (sortByKey_perm t)]
+    congr 1
+    exact integral_congr t _ _ (fun q _ => by rw [hshift])
+  have hmom : moment out = c * ((moment t + (d + p) * total t) / mx) := by
+    unfold moment
+    rw [hc, hW]
+    congr 2
+    have : (fun k : Rat => k + d + p) = (fun k => k + (d + p) * 1) := by funext k; ring
+    rw [this, integral_add, integral_const]
+    unfold total; ring
+  have hsum : sumAb out = c * (total t / mx) := by
+    rw [← total_eq_sumAb]
+    unfold total
+    rw [hc, hW]
+  rw [hmom, hsum, hT, hM]
+  ring
 
 end C14
